@@ -9,9 +9,9 @@ import tempfile
 from native.harness import run_wsgi, run_asgi, wsgi_environ, asgi_scope
 
 
-def request_view_w(method, path, query, headers, body):
+def request_view_w(method, path, query, headers, body, root=""):
     import baize.wsgi as W
-    env = wsgi_environ(method, path, headers, query=query, body=body)
+    env = wsgi_environ(method, path, headers, query=query, body=body, script_name=root)
     # PEP 3333: a server may pass the optional CGI variables as empty strings instead of leaving them out - the same
     # abstract request either way (alternating, so that both presentations are exercised)
     if (len(path) + len(query) + len(headers)) % 2:
@@ -21,14 +21,17 @@ def request_view_w(method, path, query, headers, body):
     return view(req, lambda name: getattr(req, name))
 
 
-def request_view_a(method, path, query, headers, chunks):
+def request_view_a(method, path, query, headers, chunks, root=""):
     import baize.asgi as A
     msgs = [{"type": "http.request", "body": c, "more_body": i < len(chunks) - 1} for i, c in enumerate(chunks)]
 
     async def go():
         async def receive():
             return msgs.pop(0) if msgs else {"type": "http.disconnect"}
-        req = A.Request(asgi_scope(method, path, headers, query=query), receive)
+        sc = asgi_scope(method, path, headers, query=query)
+        if root:
+            sc["root_path"] = root
+        req = A.Request(sc, receive)
 
         async def get(name):
             v = getattr(req, name)
@@ -79,9 +82,9 @@ def view(req, get):
     return out
 
 
-def check_request(method, path, query, headers, body, chunks):
-    w = request_view_w(method, path, query, headers, body)
-    a = request_view_a(method, path, query, headers, chunks)
+def check_request(method, path, query, headers, body, chunks, root=""):
+    w = request_view_w(method, path, query, headers, body, root)
+    a = request_view_a(method, path, query, headers, chunks, root)
     v = []
     for name in VIEW_FIELDS:
         if name == "client":
@@ -223,7 +226,7 @@ def replay(inputs):
         k = inputs["kind"]
         if k == "request":
             v = check_request(inputs["method"], inputs["path"], inputs["query"], [tuple(h) for h in inputs["headers"]],
-                              inputs["body"].encode("latin-1"), [c.encode("latin-1") for c in inputs["chunks"]])
+                              inputs["body"].encode("latin-1"), [c.encode("latin-1") for c in inputs["chunks"]], inputs.get("root", ""))
         elif k == "response":
             v = check_response(inputs["name"], inputs["method"], [tuple(h) for h in inputs["headers"]], d)
         else:
@@ -265,6 +268,15 @@ def bounded(tier, seed):
                         distinct.add(("req", method, path, query, str(headers), len(chunks)))
                         rec({"kind": "request", "method": method, "path": path, "query": query, "headers": [list(h) for h in headers],
                              "body": body.decode("latin-1"), "chunks": [c.decode("latin-1") for c in chunks]}, v)
+    # requests to an application mounted below a prefix (SCRIPT_NAME / root_path), incl. paths that repeat the prefix text
+    for root, path in (("/api", "/users"), ("/api", "/api/users"), ("/api", "/apiary"), ("/v1", "/v10/x"), ("/a", "/a"), ("/caf\u00e9", "/caf\u00e9/x"),
+                       ("/api/", "/x"), ("/api", "/")):
+        for query in ("", "a=1"):
+            evals += 1
+            v = check_request("GET", path, query, [("Host", "example.com")], b"", [b""], root)
+            distinct.add(("req-mounted", root, path, query))
+            rec({"kind": "request", "method": "GET", "path": path, "query": query, "headers": [["Host", "example.com"]], "body": "",
+                 "chunks": [""], "root": root}, v)
     d = tempfile.mkdtemp(prefix="verif_c04_")
     try:
         wr, ar, p = response_recipes(d)
